@@ -173,6 +173,13 @@ fn run_memfs_transcript(ops: &[Op], rep: &mut Report, tag: &str) {
         let s1 = direct.verif_snapshot();
         shadow.t = memfs_ntree(&s1);
         let mut diverged = false;
+        // a multi-entry call that fails half way (link loop under follow, type conflict ...) stops where its
+        // unordered traversal was: the instances are legitimately out of step then, which is not a wrapper matter
+        let partial = r1.is_err() && r2.is_err() && r3.is_err() && matches!(op, Op::Copy(..) | Op::CopyB(..) | Op::Chmod(..) | Op::ChmodB(..) | Op::Chown(..) | Op::ChownB(..) | Op::RemoveAll(..) | Op::MkfileM(..));
+        if partial && (snap_of(&wrapped).map(|s| s != s1).unwrap_or(true) || snap_of(&up).map(|s| s != s1).unwrap_or(true)) {
+            rep.count("histories ended at a multi-entry call that failed half way", 1);
+            break;
+        }
         for (name, r, v) in [("Vfs::Memfs", &r2, &wrapped), ("upcast", &r3, &up)] {
             let same_state = snap_of(v).map(|s| s == s1).unwrap_or(false);
             if *r != r1 || !same_state {
